@@ -124,6 +124,16 @@ def gen_font(rng):
     lib = {}
     if rng.random() < 0.4:
         lib["public.openTypeCategories"] = {g["name"]: g["cat"] for g in glyphs}
+    if features is None and not indic and rng.random() < 0.3:
+        # the feature file already holds a markClass statement under the very name the writer generates (@MC_<key>), with an
+        # anchor that is NOT the mark's current UFO anchor (a stale hand-written definition): the generated lookups must still
+        # use the UFO anchors
+        mk = [g for g in glyphs if g["cat"] == "mark" and any(a[0].startswith("_") and "." not in a[0] for a in g["anchors"])]
+        if mk:
+            g0 = mk[0]
+            a0 = next(a for a in g0["anchors"] if a[0].startswith("_") and "." not in a[0])
+            features = "languagesystem DFLT dflt;\nlanguagesystem latn dflt;\nmarkClass %s <anchor %d %d> @MC_%s;\n" % (
+                g0["name"], int(a0[1]) + 100, int(a0[2]) - 37, a0[0][1:])
     return {"glyphs": glyphs, "lib": lib, "quantization": rng.choice([1, 1, 5, 10]), "group": rng.random() < 0.5,
             "script_groups": script_groups,
             "features": features if features is not None else
